@@ -29,12 +29,13 @@ FID = "MuIgnoresEs"
 # many JVMs run side by side: keep each one's helper threads down (measured: 29 s -> 20 s for 12 processes)
 JVM_ENV = {"JAVA_TOOL_OPTIONS": "-XX:ParallelGCThreads=1 -XX:CICompilerCount=2"}
 
-DEVS = ["MuIgnoresEs", "SpreadOverAll", "AscendingSort", "NoUnsort", "StopEarly", "EsDroppedInLoop"]
+DEVS = ["MuIgnoresEs", "SpreadOverAll", "AscendingSort", "NoUnsort", "StopEarly", "EsDroppedInLoop", "AbsGainFloor"]
 # model-level mutant -> the invariant that must refute it
 DEV_REFUTED_BY = {"MuIgnoresEs": "KKT", "SpreadOverAll": "SumIsP", "AscendingSort": "NonNeg",
-                  "NoUnsort": "PermutationEquivariant", "StopEarly": "NonNeg", "EsDroppedInLoop": "MatchesOptimum"}
+                  "NoUnsort": "PermutationEquivariant", "StopEarly": "NonNeg", "EsDroppedInLoop": "MatchesOptimum",
+                  "AbsGainFloor": "ScaleLaws"}
 INVARIANTS = ["TypeOK", "NonNeg", "SumIsP", "KKT", "MatchesOptimum", "WaterLevelUnique", "Optimal",
-              "ExchangeOptimal", "PermutationEquivariant", "RunAgrees", "KeepsOne", "PsNonNeg", "DropSound",
+              "ExchangeOptimal", "PermutationEquivariant", "RunAgrees", "ScaleLaws", "ScaleLawsOptimum", "KeepsOne", "PsNonNeg", "DropSound",
               "StopSound"]
 ACTIONS = ["Pick", "Sort", "Level", "DropWorst", "Spread", "Unsort", "Mu"]
 
@@ -51,7 +52,7 @@ def rset(pairs):
 
 def model(gains, first, lens, powers, noises, energies, dev=(), emit=True, invariants=None, **opt):
     o = dict(AllTieBreaks=True, DropOnTie=False, PermAll=True, GridN=4, ExN=4,
-             OptAMax=[(160, 1), (160, 1)], ExAMax=(160, 1))
+             OptAMax=[(160, 1), (160, 1)], ExAMax=(160, 1), Scales={(3, 1), (1, 2)}, GainFloor=(1, 4))
     o.update(opt)
     optrec = tlc.tla(o)
     defs = {"Gains": rset(gains), "FirstGains": rset(first), "Lens": tlc.tla(set(lens)),
@@ -98,40 +99,123 @@ def close(x, want):
     return bool(np.isfinite(x)) and abs(x - want) <= TOL * max(1.0, abs(want))
 
 
-def run_case(c):
-    """Execute one TLC-emitted case on the real doWF.  Returns (kind, text): kind in
-    {"ok", "finding", "violation"}.  Expected values are the emitted exact rationals."""
+SCALES = [1e-30, 1e-15, 1e-9, 1e9, 1e15, 1e30]
+TOL32 = 1e-5      # a float32 gain array makes numpy 2 compute in float32 (eps 6e-8): relative to the water level
+
+
+def call(g, P, n0, es):
     from pyphysim.comm import waterfilling
-    g = np.array([fl(x) for x in c["g"]], dtype=float)
-    g0 = g.copy()
-    P, n0, es = fl(c["p"]), fl(c["n0"]), fl(c["es"])
-    try:
-        with np.errstate(all="ignore"):
-            pw, mu = waterfilling.doWF(g, P, n0, es)
-            dflt = waterfilling.doWF(g0.copy(), P) if (c["n0"] == [1, 1] and c["es"] == [1, 1]) else None
-    except Exception as ex:  # doWF is total on positive inputs
-        return "violation", f"doWF raised {type(ex).__name__}: {ex}"
-    if not np.array_equal(g, g0):
-        return "violation", "doWF modified its input array"
+    with np.errstate(all="ignore"):
+        return waterfilling.doWF(g, P, n0, es)
+
+
+def judge_result(res, n, want, wmu, out_scale=1.0, tol=TOL, ref=1.0):
+    """compare (powers, mu) / out_scale with the exact expected values; None or (what, is_mu)"""
+    pw, mu = res
     pw = np.asarray(pw)
-    if pw.shape != (len(g),):
-        return "violation", f"powers have shape {pw.shape}, expected {(len(g),)}"
-    want = [fl(x) for x in c["pw"]]
-    bad = [i for i in range(len(g)) if not close(float(pw[i]), want[i])]
+    if pw.shape != (n,):
+        return f"powers have shape {pw.shape}, expected {(n,)}", False
+    if pw.dtype.kind != "f":
+        return f"powers have dtype {pw.dtype} (not floating point)", False
+    for i in range(n):
+        x = float(pw[i]) / out_scale
+        if not (np.isfinite(x) and abs(x - want[i]) <= tol * max(1.0, ref, abs(want[i]))):
+            return (f"power of channel {i} is {x!r}, the optimum (exact, from TLC) is {want[i]!r}; "
+                    f"returned {[float(v) / out_scale for v in pw]} expected {want}"), False
+    x = float(mu) / out_scale
+    if not (np.isfinite(x) and abs(x - wmu) <= tol * max(1.0, ref, abs(wmu))):
+        return (f"returned water level {x!r}, but the allocation is max(0, mu - N0/(Es g_i)) only for mu = {wmu!r}"), True
+    return None
+
+
+def presentations(c, gf):
+    """the same gain vector handed over in other numpy representations: (label, array, keep-alive base, tol).
+    Only representations that hold the gains EXACTLY are produced."""
+    n = len(gf)
+    out = []
+    if all(x[1] == 1 for x in c["g"]):
+        out += [("int64 gains", gf.astype(np.int64), None, TOL), ("int32 gains", gf.astype(np.int32), None, TOL)]
+        if max(x[0] for x in c["g"]) < 256:
+            out.append(("uint8 gains", gf.astype(np.uint8), None, TOL))
+    if np.array_equal(gf.astype(np.float32).astype(float), gf):
+        out.append(("float32 gains", gf.astype(np.float32), None, TOL32))
+    big = np.full(2 * n + 1, 99.0)
+    big[1::2] = gf
+    out.append(("strided view a[1::2]", big[1::2], big, TOL))
+    rev = gf[::-1].copy()
+    out.append(("reversed view a[::-1]", rev[::-1], rev, TOL))
+    ro = gf.copy()
+    ro.setflags(write=False)
+    out.append(("read-only array", ro, None, TOL))
+    two = np.column_stack([gf, gf + 1.0])
+    out.append(("column view m[:, 0] of a 2-D array", two[:, 0], two, TOL))
+    return out
+
+
+def run_case(c):
+    """Execute one TLC-emitted case on the real doWF: the plain float64 call, the same gains in other array
+    representations, and the scaled calls licensed by the scaling laws of WaterFilling.tla.  Returns
+    (kind, text, calls): kind in {"ok", "finding", "violation"}.  Expected values are the emitted rationals."""
+    gf = np.array([fl(x) for x in c["g"]], dtype=float)
+    n = len(gf)
+    P, n0, es = fl(c["p"]), fl(c["n0"]), fl(c["es"])
+    want, wmu = [fl(x) for x in c["pw"]], fl(c["mu"])
+    calls = 0
+
+    def attempt(label, g, P_, n0_, es_, base=None, out_scale=1.0, tol=TOL):
+        """one call; the argument (and the array a view was cut from) must come back untouched"""
+        nonlocal calls
+        calls += 1
+        g_before = g.copy()
+        base_before = None if base is None else base.copy()
+        try:
+            res = call(g, P_, n0_, es_)
+        except Exception as ex:  # doWF is total on positive inputs
+            return f"{label}: doWF raised {type(ex).__name__}: {ex}", False
+        if not np.array_equal(g, g_before) or g.dtype != g_before.dtype or \
+                (base is not None and not np.array_equal(base, base_before)):
+            return f"{label}: doWF modified its input array", False
+        bad = judge_result(res, n, want, wmu, out_scale, tol, ref=abs(wmu) if tol != TOL else 1.0)
+        return None if bad is None else (f"{label}: " + bad[0], bad[1])
+
+    # 1. the plain call (float64 array, Python floats)
+    bad = attempt("float64 gains", gf.copy(), P, n0, es)
     if bad:
-        i = bad[0]
-        return "violation", (f"power of channel {i} is {float(pw[i])!r}, the optimum (exact, from TLC) is "
-                             f"{c['pw'][i][0]}/{c['pw'][i][1]} = {want[i]!r}; returned {pw.tolist()} expected {want}")
-    if dflt is not None and not (np.allclose(dflt[0], pw, rtol=0, atol=1e-12) and abs(dflt[1] - mu) <= 1e-12):
-        return "violation", "doWF(g, P) differs from doWF(g, P, 1.0, 1.0): defaults are not noiseVar=1, Es=1"
-    wmu = fl(c["mu"])
-    if not close(float(mu), wmu):
-        text = (f"returned water level {float(mu)!r}, but the allocation is max(0, mu - N0/(Es g_i)) only for "
-                f"mu = {c['mu'][0]}/{c['mu'][1]} = {wmu!r}")
-        if c["es"] != [1, 1] and close(float(mu), fl(c["munoes"])):
-            return "finding", text + " (returned value equals p_best + N0/g_best: Es is missing)"
-        return "violation", text
-    return "ok", ""
+        text, is_mu = bad
+        if is_mu and c["es"] != [1, 1]:
+            res = call(gf.copy(), P, n0, es)
+            if close(float(res[1]), fl(c["munoes"])):
+                return "finding", text + " (returned value equals p_best + N0/g_best: Es is missing)", calls
+        return "violation", text, calls
+    if c["n0"] == [1, 1] and c["es"] == [1, 1]:
+        from pyphysim.comm import waterfilling
+        calls += 1
+        d = waterfilling.doWF(gf.copy(), P)
+        if judge_result(d, n, want, wmu):
+            return "violation", "doWF(g, P) differs from doWF(g, P, 1.0, 1.0): defaults are not noiseVar=1, Es=1", calls
+    # 2. other representations of the same numbers (results must not depend on dtype / memory layout)
+    for label, arr, base, tol in presentations(c, gf):
+        bad = attempt(label, arr, P, n0, es, base=base, tol=tol)
+        if bad:
+            return "violation", bad[0], calls
+    if all(x[1] == 1 for x in (c["p"], c["n0"], c["es"])):
+        bad = attempt("P, N0, Es as Python ints", gf.copy(), int(P), int(n0), int(es))
+        if bad:
+            return "violation", bad[0], calls
+    bad = attempt("P, N0, Es as numpy float64 scalars", gf.copy(), np.float64(P), np.float64(n0), np.float64(es))
+    if bad:
+        return "violation", bad[0], calls
+    # 3. scaling laws (ScaleLaws in WaterFilling.tla): no absolute scale may enter the result
+    for k in SCALES:
+        for label, args, oscale in (
+                (f"gains and N0 both x {k:g} (same powers, same level)", (gf * k, P, n0 * k, es), 1.0),
+                (f"N0 and Es both x {k:g} (same powers, same level)", (gf.copy(), P, n0 * k, es * k), 1.0),
+                (f"gains x {k:g}, Es / {k:g} (same powers, same level)", (gf * k, P, n0, es / k), 1.0),
+                (f"P and N0 both x {k:g} (powers and level x {k:g})", (gf.copy(), P * k, n0 * k, es), k)):
+            bad = attempt(label, *args, out_scale=oscale)
+            if bad:
+                return "violation", bad[0], calls
+    return "ok", "", calls
 
 
 def run_cases(cases):
@@ -169,6 +253,9 @@ SMALL = dict(gains=[(1, 2), (1, 1), (4, 1)], first=[(1, 2), (1, 1), (4, 1)], len
 def model_devs(ctx, ex):
     """every model-level mutant must be refuted by the invariant it is aimed at; DropOnTie must not be"""
     jobs = [{"dev": d, "model": dict(SMALL, dev=[d], emit=False, invariants=[DEV_REFUTED_BY[d]])} for d in DEVS]
+    # the absolute gain floor (1/4) lies below every gain of SMALL: EVERY other invariant holds on the domain,
+    # only the scaling law (k = 1/8 moves the gains under the floor) refutes it
+    jobs[-1]["model"].update(invariants=INVARIANTS, Scales={(1, 8)}, GainFloor=(1, 4))
     tie = {"model": dict(gains=G_STD, first=G_STD, lens=[1, 2, 3], powers=[(1, 1)], noises=[(1, 1)],
                          energies=[(1, 1), (2, 1)], DropOnTie=True)}
     cov = {"model": dict(SMALL, emit=False), "coverage": True}       # intended instance with per-action coverage
@@ -208,12 +295,14 @@ def run(ctx):
     ctx.require_actions(ACTIONS)
     cases = sorted(cases.values(), key=size_of)
     chunks = [cases[i::32] for i in range(32)]
-    res = pool_map(run_cases, chunks) if len(cases) > 20000 else [run_cases(ch) for ch in chunks]
-    out = sorted(((size_of(c), i, c, k, t) for ch, rs in zip(chunks, res) for i, (c, (k, t)) in enumerate(zip(ch, rs))),
+    res = pool_map(run_cases, chunks)
+    out = sorted(((size_of(c), i, c, k, t, m) for ch, rs in zip(chunks, res) for i, (c, (k, t, m)) in enumerate(zip(ch, rs))),
                  key=lambda x: x[:2])
     ties = 0
-    for _, _, c, kind, text in out:
-        ctx.ok(case_key(c))
+    ncalls = 0
+    for _, _, c, kind, text, m in out:
+        ctx.ok(case_key(c), n=m)
+        ncalls += m
         ties += bool(c["tie"])
         if kind == "finding":
             ctx.finding(FID, text, {"stage": "R", "case": c})
@@ -224,6 +313,7 @@ def run(ctx):
         ctx.sample({k: c[k] for k in ("g", "p", "n0", "es", "pw", "mu", "rem")})
     ctx.exhaustive = True
     ctx.notes["cases_replayed"] = len(cases)
+    ctx.notes["doWF_calls_in_stage_R"] = ncalls
     ctx.notes["cases_with_channel_exactly_at_water_level"] = ties
     ctx.notes["cases_with_switched_off_channels"] = sum(1 for c in cases if c["rem"] > 0)
     from . import c12_trace
@@ -235,8 +325,8 @@ def replay(ctx, data):
     if c.get("stage") == "T":
         from . import c12_trace
         return c12_trace.replay(ctx, c)
-    kind, text = run_case(c["case"])
-    ctx.ok(case_key(c["case"]))
+    kind, text, m = run_case(c["case"])
+    ctx.ok(case_key(c["case"]), n=m)
     if kind == "finding":
         ctx.finding(FID, text, c)
     elif kind == "violation":
